@@ -40,6 +40,26 @@ func genReplay(r *propRun, s *vc.ObSummary, rep map[string]any) {
 	if genModelReplay(r, s, rep) {
 		return
 	}
+	// a bounded search for a failing input on the real code, where the property has one
+	short := s.Ob
+	if i := strings.Index(short, "."); i >= 0 {
+		short = short[:i]
+	}
+	ssf := filepath.Join(verifRoot, "scenarios", r.cfg.ID, "_search."+short+".go")
+	if b, err := os.ReadFile(ssf); err == nil {
+		pkgDir := pkgDirOf(r, s)
+		rep["test_source"] = string(b)
+		rep["test_name"] = "TestGovcReplay"
+		rep["package_dir"] = pkgDir
+		rep["replay_kind"] = "bounded search for a failing input on the real code (" + ssf + "); the solver's counterexample itself is over abstract element types and is attached as solver output"
+		out, failed, err := runOverlayTest(pkgDir, "TestGovcReplay", string(b))
+		rep["replay_output"] = tail(out, 4000)
+		if err != nil {
+			rep["replay_error"] = err.Error()
+		}
+		rep["reproduced"] = failed && err == nil
+		return
+	}
 	rep["replay_note"] = "no replay available for this obligation: the verifier's output is attached"
 }
 
